@@ -67,8 +67,14 @@ def _keeps_slot(facts, f, e):
     freshly selected one when there was none); None otherwise.  Accepts Some(change_size(prev, n)),
     self.owned.map(|p| change_size(p, n)), and alternatives joined by a match/if (phi), whatever the spelling."""
     if e[0] == 'phi':
-        ds = [_keeps_slot(facts, f, a) for a in e[1]]
-        return ' | '.join(ds) if all(ds) else None
+        # `owned.map(|p| change_size(p, n))` written out: Some(change_size(prev, n)) when there was a buffer, None
+        # when there was none (the None alternative is only accepted next to such a Some alternative)
+        nones = [a for a in e[1] if a[0] == 'agg' and a[1].endswith('Option::None')]
+        rest = [a for a in e[1] if a not in nones]
+        ds = [_keeps_slot(facts, f, a) for a in rest]
+        if rest and all(ds) and all('change_size' in d for d in ds):
+            return ' | '.join(ds + (['None when there was none'] if nones else []))
+        return ' | '.join(ds) if (all(ds) and not nones and ds) else None
     if e[0] == 'agg' and e[1].endswith('Option::Some'):
         return _keeps_ptr(facts, f, e[3][0])
     if e[0] == 'call' and e[1] == 'std::option::Option::<T>::map' and len(e[2]) == 2:
